@@ -173,7 +173,7 @@ pub async fn run_case(addr: SocketAddr, certs: &Certs, seed: u64, i: u64, kind: 
                     .requestor(&topic)
                     .with_request_encoder(StringCodec)
                     .with_reply_decoder(StringCodec)
-                    .with_request_timeout(Duration::from_millis(700))
+                    .with_request_timeout(Duration::from_millis(1500))
                     .map_err(|e| err_text(&e))?
                     .open()
                     .await
@@ -194,8 +194,14 @@ pub async fn run_case(addr: SocketAddr, certs: &Certs, seed: u64, i: u64, kind: 
                     if txt != "ok" {
                         return Err(txt);
                     }
-                    // the clone recovers on its own, then both have calls in flight at the same time
-                    // (the first one answered slowly): each must get the reply to its own request
+                    // a call on the recovered handle is in flight (answered slowly) while the clone, which
+                    // has not been used since the cut, makes its first call and recovers on its own; then
+                    // the clone makes another call: each call must get the reply to its own request
+                    let mut ca = rq.clone();
+                    let (qa, qb) = (format!("slow{}", j), format!("fast{}", j));
+                    let (qa2, qb2) = (qa.clone(), qb.clone());
+                    let ta = tokio::spawn(async move { ca.request(qa2).await });
+                    tokio::time::sleep(Duration::from_millis(100)).await;
                     let warm = with_deadline(budget + 1500, rq2.request(format!("w{}", j))).await;
                     let warm_txt = match warm {
                         None => "hung".to_string(),
@@ -203,12 +209,7 @@ pub async fn run_case(addr: SocketAddr, certs: &Certs, seed: u64, i: u64, kind: 
                         Some(Ok(v)) => format!("wrong:{}", v),
                         Some(Err(e)) => err_text(&e),
                     };
-                    let mut ca = rq.clone();
                     let mut cb = rq2.clone();
-                    let (qa, qb) = (format!("slow{}", j), format!("fast{}", j));
-                    let (qa2, qb2) = (qa.clone(), qb.clone());
-                    let ta = tokio::spawn(async move { ca.request(qa2).await });
-                    tokio::time::sleep(Duration::from_millis(120)).await;
                     let tb = tokio::spawn(async move { cb.request(qb2).await });
                     let show = |r: Option<Result<Result<String, SeliumError>, tokio::task::JoinError>>, q: &str| match r {
                         None => "hung".to_string(),
@@ -222,6 +223,20 @@ pub async fn run_case(addr: SocketAddr, certs: &Certs, seed: u64, i: u64, kind: 
                     let _ = writeln!(out, "outage {} op=clones warm={} slow={} fast={}", j, warm_txt, ra, rb);
                     if warm_txt != "ok" || ra != "ok" || rb != "ok" {
                         return Err(format!("clones_after_outage_{}:warm={},slow={},fast={}", j, warm_txt, ra, rb));
+                    }
+                    // and once more with both handles already recovered: overlapping calls on the two
+                    let mut ca = rq.clone();
+                    let mut cb = rq2.clone();
+                    let (qa, qb) = (format!("slowb{}", j), format!("fastb{}", j));
+                    let (qa2, qb2) = (qa.clone(), qb.clone());
+                    let ta = tokio::spawn(async move { ca.request(qa2).await });
+                    tokio::time::sleep(Duration::from_millis(100)).await;
+                    let tb = tokio::spawn(async move { cb.request(qb2).await });
+                    let ra = show(with_deadline(3000, ta).await, &qa);
+                    let rb = show(with_deadline(3000, tb).await, &qb);
+                    let _ = writeln!(out, "outage {} op=clones2 slow={} fast={}", j, ra, rb);
+                    if ra != "ok" || rb != "ok" {
+                        return Err(format!("clones2_after_outage_{}:slow={},fast={}", j, ra, rb));
                     }
                     if j < outages {
                         a.__verif_close_connection().await;
